@@ -193,9 +193,9 @@ private:
 		asl_verif_point(12, p);
 #endif
 		((Context<Func>*)p)->ready = true;
-		for (int i = s.i0; i < s.i1; i += s.s)
+		for (Long i = s.i0; i < s.i1; i += s.s) // 64 bit index: i + s.s can exceed INT_MAX
 		{
-			s.f(i);
+			s.f((int)i);
 		}
 #ifdef ASL_VERIF
 		asl_verif_point(14, (void*)pthread_self());
@@ -343,7 +343,7 @@ public:
 	static void parallel_for(int i0, int i1, const F& f, int nth = 8)
 	{
 		Array<Thread*> threads;
-		int n = min(nth, i1 - i0);
+		int n = (int)min((Long)nth, (Long)i1 - (Long)i0);
 		for (int i = 0; i<n; i++)
 		{
 			threads << new Thread;
